@@ -11,6 +11,8 @@
  *   sf|cf bpp depth be tc rmax gmax bmax rs gs bs      (no output)
  *   econ 0|1                                           (no output)
  *   cmap is16 count v...                               (no output)
+ *   recmap ready is16 count v...  (screen->colourMap changed, then rfbSetClientColourMap(cl,0,0))
+ *              -> recmap ret=1 tbl=<bytes> tsum=<fnv64>
  *   setup      -> setup ok=1 fn=none|table cf=<10 ints> msg=<hex|-> tbl=<bytes|-> tsum=<fnv64|->
  *                 setup ok=0 | setup crash
  *   xlate stride w h <hex input, buffer ends at the guard>
@@ -196,6 +198,24 @@ int main(void) {
          entries not given in the script are 0 */
       memset(cm_shorts, 0, 65536 * 3 * 2); memset(cm_bytes, 0, 65536 * 3);
       for (;;) { n = strtol(p, &e, 10); if (e == p) break; p = e; if (i < 65536 * 3) { cm_shorts[i] = (uint16_t)n; cm_bytes[i] = (uint8_t)n; } i++; }
+    } else if (!strcmp(op, "recmap")) {
+      /* the application changes screen->colourMap and calls rfbSetClientColourMap(cl, 0, 0) */
+      char *p = line + off, *e; long i = 0, n; int ready; rfbBool ret;
+      ready = (int)strtol(p, &p, 10);
+      cm_is16 = (int)strtol(p, &p, 10); cm_count = (uint32_t)strtol(p, &p, 10);
+      memset(cm_shorts, 0, 65536 * 3 * 2); memset(cm_bytes, 0, 65536 * 3);
+      for (;;) { n = strtol(p, &e, 10); if (e == p) break; p = e; if (i < 65536 * 3) { cm_shorts[i] = (uint16_t)n; cm_bytes[i] = (uint8_t)n; } i++; }
+      if (!setup_ok) { printf("recmap nosetup\n"); continue; }
+      screen->colourMap.is16 = cm_is16; screen->colourMap.count = cm_count;
+      if (cm_is16) screen->colourMap.data.shorts = cm_shorts; else screen->colourMap.data.bytes = cm_bytes;
+      cl->readyForSetColourMapEntries = ready ? TRUE : FALSE;
+      ret = rfbSetClientColourMap(cl, 0, 0);
+      printf("recmap ret=%d", ret ? 1 : 0);
+      if (cl->translateFn == rfbTranslateNone || !cl->translateLookupTable) printf(" tbl=- tsum=-\n");
+      else {
+        size_t tn = malloc_usable_size(cl->translateLookupTable);
+        printf(" tbl=%zu tsum=%016llx\n", tn, (unsigned long long)fnv64((unsigned char *)cl->translateLookupTable, tn));
+      }
     } else if (!strcmp(op, "setup")) do_setup();
     else if (!strcmp(op, "xlate") || !strcmp(op, "extent")) {
       int stride, w, h, n = 0; size_t outlen;
